@@ -38,14 +38,14 @@ theorem internAll_snoc (s : Store) (l : List BDD) (t : BDD) :
     internAll s (l ++ [t]) = (intern (internAll s l) t).1 := by
   simp [internAll, List.foldl_append]
 
-def Present (s : Store) (t : BDD) : Prop := ∃ x, Denotes s x t
+def PresentX (s : Store) (t : BDD) : Prop := ∃ x, Denotes s x t
 
-theorem Present.mono {s s' : Store} {t : BDD} (h : Present s t) (hle : s.Le s') : Present s' t :=
+theorem PresentX.mono {s s' : Store} {t : BDD} (h : PresentX s t) (hle : s.Le s') : PresentX s' t :=
   h.elim fun x hx => ⟨x, hx.mono hle⟩
 
 /-- interning trees that are already present changes nothing -/
 theorem internAll_present {s : Store} (hu : s.Unique) (hr : s.NoRed) {l : List BDD}
-    (h : ∀ t, t ∈ l → Present s t) : internAll s l = s := by
+    (h : ∀ t, t ∈ l → PresentX s t) : internAll s l = s := by
   induction l with
   | nil => rfl
   | cons t l ih =>
@@ -62,7 +62,7 @@ structure PostC (reg : Nat → List BDD) (s : Store) (I : List BDD) (T : BDD) (R
     Prop where
   w : PostW reg s T R
   canon : (R.1.store, R.2) = intern (internAll s I) T
-  pres : ∀ t, t ∈ I → Present R.1.store t
+  pres : ∀ t, t ∈ I → PresentX R.1.store t
 
 theorem PostC.ofX {reg : Nat → List BDD} {s : Store} {T : BDD} {R : St × Edge} (hr : s.NoRed)
     (h : PostX reg s T R) : PostC reg s [] T R :=
@@ -72,7 +72,7 @@ theorem PostC.ofX {reg : Nat → List BDD} {s : Store} {T : BDD} {R : St × Edge
 intermediate trees are already present -/
 theorem PostC.hit {reg : Nat → List BDD} {st st' : St} {I : List BDD} {T : BDD} {r : Edge}
     (hs : st'.store = st.store) (hinv : InvX reg st') (hr : st.store.NoRed)
-    (hpres : ∀ t, t ∈ I → Present st.store t) (hd : Denotes st.store r T) :
+    (hpres : ∀ t, t ∈ I → PresentX st.store t) (hd : Denotes st.store r T) :
     PostC reg st.store I T (st', r) := by
   have hinv' := hinv
   rw [InvX, hs] at hinv'
@@ -151,7 +151,7 @@ def interX (reg : Nat → List BDD) : XOp → List BDD → List Nat → List BDD
 /-- all intermediate trees of the computation the key stands for are present -/
 def ClosedEntry (reg : Nat → List BDD) (s : Store) (k : Key) : Prop :=
   ∀ xk ts, k = encKey xk → xk.WF → DenotesL s xk.operands ts →
-    ∀ t, t ∈ interX reg xk.op ts xk.nums → Present s t
+    ∀ t, t ∈ interX reg xk.op ts xk.nums → PresentX s t
 
 def ClosedX (reg : Nat → List BDD) (s : Store) (c : Cache) : Prop :=
   ∀ k r, (k, r) ∈ c → ClosedEntry reg s k
@@ -209,7 +209,7 @@ theorem ClosedX.grows_base {reg : Nat → List BDD} {s s' : Store} {c c' : Cache
 
 theorem closedEntry_quant {reg : Nat → List BDD} {s : Store} {q : Quant} {f vars : Edge}
     {a v : BDD} (hf : Denotes s f a) (hv : Denotes s vars v)
-    (hp : ∀ t, t ∈ qInter q a v → Present s t) :
+    (hp : ∀ t, t ∈ qInter q a v → PresentX s t) :
     ClosedEntry reg s (encKey (quantKey q f vars)) := by
   intro xk ts hk hw hd t ht
   have := encKey_inj (quantKey_wf q f vars) hw hk
@@ -219,7 +219,7 @@ theorem closedEntry_quant {reg : Nat → List BDD} {s : Store} {q : Quant} {f va
   exact hp t ht
 
 theorem closedEntry_subst {reg : Nat → List BDD} {s : Store} {f : Edge} {id : Nat} {a : BDD}
-    (hf : Denotes s f a) (hp : ∀ t, t ∈ sInter (reg id) a → Present s t) :
+    (hf : Denotes s f a) (hp : ∀ t, t ∈ sInter (reg id) a → PresentX s t) :
     ClosedEntry reg s (encKey (substKey f id)) := by
   intro xk ts hk hw hd t ht
   have := encKey_inj (substKey_wf f id) hw hk
@@ -231,12 +231,12 @@ theorem closedEntry_subst {reg : Nat → List BDD} {s : Store} {f : Edge} {id : 
 /-- what a closed cache says at a hit of a quantification key -/
 theorem ClosedX.quant_hit {reg : Nat → List BDD} {s : Store} {c : Cache} (h : ClosedX reg s c)
     {q : Quant} {f vars r : Edge} {a v : BDD} (hm : (encKey (quantKey q f vars), r) ∈ c)
-    (hf : Denotes s f a) (hv : Denotes s vars v) : ∀ t, t ∈ qInter q a v → Present s t :=
+    (hf : Denotes s f a) (hv : Denotes s vars v) : ∀ t, t ∈ qInter q a v → PresentX s t :=
   h _ r hm (quantKey q f vars) [a, v] rfl (quantKey_wf q f vars) (DenotesL.two hf hv)
 
 theorem ClosedX.subst_hit {reg : Nat → List BDD} {s : Store} {c : Cache} (h : ClosedX reg s c)
     {f r : Edge} {id : Nat} {a : BDD} (hm : (encKey (substKey f id), r) ∈ c)
-    (hf : Denotes s f a) : ∀ t, t ∈ sInter (reg id) a → Present s t :=
+    (hf : Denotes s f a) : ∀ t, t ∈ sInter (reg id) a → PresentX s t :=
   h _ r hm (substKey f id) [a] rfl (substKey_wf f id) (DenotesL.one hf)
 
 /-! ## `quant` from a closed cache -/
@@ -254,7 +254,7 @@ theorem quantS_canon {p : Policy} (pok : p.OK) (reg : Nat → List BDD) (q : Qua
     omega
   | succ fuel ih =>
     intro st f vars a v hinv hcl hr hf hv hsz hneed
-    have nopres : ∀ t, t ∈ ([] : List BDD) → Present st.store t := fun _ h => by cases h
+    have nopres : ∀ t, t ∈ ([] : List BDD) → PresentX st.store t := fun _ h => by cases h
     cases hf with
     | @term x =>
       simp only [quantS, quant_leaf, isTerm_denotes hv, qInter]
@@ -368,7 +368,7 @@ theorem substituteS_canon {p : Policy} (pok : p.OK) (reg : Nat → List BDD) (su
   | zero => intro st f a _ _ _ _ _ hsz _; have := size_pos a; omega
   | succ fuel ih =>
     intro st f a hinv hcl hr hsub hf hsz hneed
-    have nopres : ∀ t, t ∈ ([] : List BDD) → Present st.store t := fun _ h => by cases h
+    have nopres : ∀ t, t ∈ ([] : List BDD) → PresentX st.store t := fun _ h => by cases h
     cases hf with
     | @term x => exact ⟨PostC.hit rfl hinv hr nopres .term, hcl⟩
     | @inner i l t e tt te hi hft hfe =>
